@@ -51,4 +51,38 @@ EdifRtClauses(pre, c, out, post, ret, r) ==
          <<"C03_RoundTrip", (out = "ok" /\ r.reader_accepts) => C03_RoundTrip(pre, c, post, ret)>>,
          <<"C03_FileSaysDesign", out = "ok" => (r.file_readable /\ C03_FileSaysDesign(pre, c, r))>> >>
     ELSE <<>>
+---------------------------------------------------------------------------
+(* C17 - identifiers the EDIF writer assigned: legal, and distinct ignoring case among siblings.      *)
+(* idc[kind][x] = the characters of EDIF.identifier of element x after the export.                     *)
+LowerLetters == {"a","b","c","d","e","f","g","h","i","j","k","l","m","n","o","p","q","r","s","t","u","v","w","x","y","z"}
+UpperOf == [a |-> "A", b |-> "B", c |-> "C", d |-> "D", e |-> "E", f |-> "F", g |-> "G", h |-> "H", i |-> "I",
+            j |-> "J", k |-> "K", l |-> "L", m |-> "M", n |-> "N", o |-> "O", p |-> "P", q |-> "Q", r |-> "R",
+            s |-> "S", t |-> "T", u |-> "U", v |-> "V", w |-> "W", x |-> "X", y |-> "Y", z |-> "Z"]
+UpperLetters == {UpperOf[ch] : ch \in LowerLetters}
+LowerOfCh(ch) == IF ch \in UpperLetters THEN CHOOSE lo \in LowerLetters : UpperOf[lo] = ch ELSE ch
+Digits == {"0","1","2","3","4","5","6","7","8","9"}
+IsAlpha(ch) == ch \in LowerLetters \cup UpperLetters
+IsIdChar(ch) == IsAlpha(ch) \/ ch \in Digits \/ ch = "_"
+LegalIdentifier(id) ==       \* the rule the EDIF naming policy (and the reader) enforces
+    /\ Len(id) >= 1
+    /\ IF id[1] = "&" THEN Len(id) >= 2 /\ Len(id) <= 256 /\ \A j \in 2..Len(id) : IsIdChar(id[j])
+       ELSE Len(id) <= 255 /\ IsAlpha(id[1]) /\ \A j \in 1..Len(id) : IsIdChar(id[j])
+FoldId(id) == [j \in DOMAIN id |-> LowerOfCh(id[j])]
+SiblingGroups(s, n) ==       \* <<kind, sequence of sibling ids>> for every naming scope below netlist n
+    LET Ls == s.nlLibs[n]
+        Ds == UNION {SeqSet(s.libDefs[l]) : l \in SeqSet(Ls)} IN
+    {<<"L", Ls>>} \cup {<<"D", s.libDefs[l]>> : l \in SeqSet(Ls)}
+    \cup {<<"P", s.defPorts[d]>> : d \in Ds} \cup {<<"C", s.defCables[d]>> : d \in Ds} \cup {<<"I", s.defKids[d]>> : d \in Ds}
+C17_Legal(s, n, idc) ==
+    \A g \in SiblingGroups(s, n) : \A x \in SeqSet(g[2]) : LegalIdentifier(idc[g[1]][x])
+C17_DistinctIgnoringCase(s, n, idc) ==
+    \A g \in SiblingGroups(s, n) : \A x, y \in SeqSet(g[2]) :
+        x # y => FoldId(idc[g[1]][x]) # FoldId(idc[g[1]][y])
+EdifNameClauses(pre, c, out, post, ret, r) ==
+    IF c.op = "edif_rt" /\ out = "ok" /\ "idc" \in DOMAIN r THEN
+      << <<"C17_Legal", C17_Legal(post, c.n, r.idc)>>,
+         <<"C17_DistinctIgnoringCase", C17_DistinctIgnoringCase(post, c.n, r.idc)>>,
+         <<"C17_Reexport", r.reader_accepts /\ C03_RoundTrip(pre, c, post, ret)>> >>
+    ELSE IF c.op = "edif_rt" THEN << <<"C17_Reexport", FALSE>> >>
+    ELSE <<>>
 =============================================================================
